@@ -73,6 +73,22 @@ for d in sorted(glob.glob(os.path.join(ROOT, "seeded", "*", "meta.json"))):
     out.append("| %s | %s | %s | %s |" % (sid, m.get("title", "").replace("|", "/")[:220], (m.get("needs") or "").replace("|", "/")[:200], rs))
 out.append("")
 
+# ---- benign
+bp = os.path.join(ROOT, "benign", "RESULTS.json")
+if os.path.exists(bp):
+    br = json.load(open(bp))
+    out += ["### Behaviour-preserving refactorings: which checks stay quiet", "",
+            "Ten refactorings a maintainer would make routinely (extracted helpers, renamed locals and temporary files, restructured "
+            "loops and switches, reworded informational messages), written by a sub-agent that saw only a worktree of /repo and "
+            "confirmed that the existing tests pass; `benign/<id>/` holds patch.diff and meta.json with the checks run, "
+            "`tools/run_benign.py` applies each to /repo, runs those quick checks and reverts. A non-zero exit here is a false alarm.", "",
+            "| id | refactoring | checks run | result |", "|---|---|---|---|"]
+    for b in sorted(br, key=lambda s: (len(s), s)):
+        r = br[b]
+        out.append("| %s | %s | %s | %s |" % (b, (r.get("title") or "").replace("|", "/")[:200], ", ".join(r["checks"]),
+                                            "FALSE ALARM: " + ", ".join(k for k, v in r["checks"].items() if v["exit"] != 0) if r["false_alarm"] else "quiet"))
+    out.append("")
+
 # ---- theorem inventory
 out += ["-" * 99, "", "## 7. Theorem inventory (generated from coq/P_*.v)", ""]
 for pf in sorted(glob.glob(os.path.join(ROOT, "coq", "P_C*.v"))):
